@@ -39,7 +39,10 @@ static bool modeInput(const std::string &mode, unsigned cp, std::vector<uint64_t
         jsonEscape(in, false, false, cp);
         in.push_back('"');
     } else if (mode == "u") {
+        jsonEscape(in, false, true, cp);
+    } else if (mode == "U") {
         jsonEscape(in, true, true, cp);
+        in.push_back('"');
     } else if (mode == "c") {
         for (unsigned i = 0; i < cp % 4; i++) in.push_back('a' + i);
         jsonEscape(in, false, (cp % 2) == 1, cp);
